@@ -294,7 +294,7 @@ func verifH_ReadCli() {
 			}
 			if !st.isServerStream {
 				_, _, second, _ := vRefNext(script, next)
-				verifAssert(end == 0 && !second && q.ended > 0, "C02+C07+C16.unary-response-only-when-exactly-one-and-ok")
+				verifAssert(end == 0 && !second && q.ended > 0, "C02+C04+C07+C16.unary-response-only-when-exactly-one-and-ok")
 			}
 			pos = next
 			continue
